@@ -252,7 +252,7 @@ func (e *Exec) errorsIs(err, target IfaceVal, depth int) bool {
 			panic(e.unsupported("errors.Is on symbolic error values"))
 		}
 	}
-	if m := e.eng.prog.LookupMethod(err.t, nil, "Unwrap"); m != nil {
+	if m := e.findMethod(err.t, nil, "Unwrap"); m != nil {
 		r := e.call(m, []Value{err.v}, nil, e.curFrame)
 		if inner, ok := r.(IfaceVal); ok {
 			return e.errorsIs(inner, target, depth+1)
@@ -294,3 +294,12 @@ var _ = fmt.Sprintf
 func crc32IEEE(b []byte) uint32 { return crc32.ChecksumIEEE(b) }
 
 func sha1sum(b []byte) [20]byte { return sha1.Sum(b) }
+
+// findMethod: like Program.LookupMethod but returns nil when T has no such method.
+func (e *Exec) findMethod(T types.Type, pkg *types.Package, name string) *ssa.Function {
+	sel := e.eng.prog.MethodSets.MethodSet(T).Lookup(pkg, name)
+	if sel == nil {
+		return nil
+	}
+	return e.eng.prog.MethodValue(sel)
+}
